@@ -20,21 +20,28 @@ deriving Repr, DecidableEq
 
 def dir (z : Z) : Int := if z.into then -1 else 1
 
-/-- the loop of `windings`, by structural recursion on the remaining list -/
-def go : List Z → Int → Bool → Outcome
-  | [], n, b => .ok n b
-  | z :: rest, n, b =>
-    if z.t0zero then go rest n true
-    else if !z.endpoint then go rest (if z.same then n else n + dir z) b
+/-- the loop of `windings`, by recursion on the remaining list. `st = (overlap, overlapInto)`:
+inside an overlapping (horizontal) section, and how the path entered it. -/
+def go : List Z → Int → Bool → Bool × Bool → Outcome
+  | [], n, b, _ => .ok n b
+  | z :: rest, n, b, st =>
+    if z.t0zero then go rest n true st
+    else if !z.endpoint then go rest (if z.same then n else n + dir z) b st
     else
       match rest with
       | [] => if z.same then .ok n b else .panic   -- `z.Same || zs[i+1].Same` short-circuits; else zs[i+1] is out of range
       | z2 :: rest' =>
-        let same := z.same || z2.same
-        go rest' (if !same && z.into == z2.into then n + dir z else n) b
+        if !(z.same || z2.same) then
+          go rest' (if z.into == z2.into then n + dir z else n) b st
+        else if z.same != z2.same then
+          -- one end of an overlapping section: remember how the path entered, count on leaving
+          let into := if z.same then z2.into else z.into
+          if !st.1 then go rest' n b (true, into)
+          else go rest' (if into == st.2 then (if into then n - 1 else n + 1) else n) b (false, st.2)
+        else go rest' n b st
 termination_by l => l.length
 
-def windings (zs : List Z) : Outcome := go zs 0 false
+def windings (zs : List Z) : Outcome := go zs 0 false (false, false)
 
 def b01 (s : String) : Bool := s == "1"
 
